@@ -251,6 +251,8 @@ func checkC10Conc(c *c10ConcCase, o *core.Obs) error {
 	defer func() { verifhook.OnPool = nil }()
 	flushPools()
 	errs := make([]error, len(c.Lists))
+	yieldingWriters.Store(true)
+	defer yieldingWriters.Store(false)
 	err := withWatchdog(180*time.Second, seqDur+time.Second, func() error {
 		var wg sync.WaitGroup
 		start := make(chan struct{})
@@ -377,6 +379,8 @@ func checkC10LL(c *c10LLCase, o *core.Obs) error {
 	defer func() { verifhook.OnWorkers = nil }()
 	errs := make([]error, c.Goroutines)
 	refDur := time.Since(t0)
+	yieldingWriters.Store(true)
+	defer yieldingWriters.Store(false)
 	werr := withWatchdog(240*time.Second, 2*time.Duration(c.Goroutines)*refDur+time.Second, func() error {
 		var wg sync.WaitGroup
 		for g := 0; g < c.Goroutines; g++ {
